@@ -81,6 +81,25 @@ func (oracleC05) Step(x *OCtx, t *Trans) []Violation {
 	}
 	// debits
 	if kind == "E" {
+		// a context its owning module paused from inside a callback earlier in this end-of-block is not running any more:
+		// a batch issued for it afterwards debits a consumer whose context is not running
+		for _, cb := range t.Res.Callbacks {
+			if cb.Kind != "pause" {
+				continue
+			}
+			pc, qc := t.Pre.Ctxs[cb.Ctx], t.Post.Ctxs[cb.Ctx]
+			if pc == nil || qc == nil {
+				continue
+			}
+			x.Wit("C05:paused-by-its-module-inside-a-callback")
+			if cb.BatchCounter == pc.BatchCounter && qc.BatchCounter > pc.BatchCounter && !pc.SuperMode {
+				if reqs, _ := batchRecords(t.Post, cb.Ctx, qc.BatchCounter); len(reqs) > 0 {
+					add("end-of-block-debits-only-issuing-consumers", "paused-in-callback/"+nameOf(pc.Consumer),
+						fmt.Sprintf("context %s was paused by its module during this end of block (at batch %d) and was issued batch %d afterwards; %s paid for it",
+							x.Sc.ctxName(cb.Ctx), cb.BatchCounter, qc.BatchCounter, nameOf(pc.Consumer)))
+				}
+			}
+		}
 		allowed := map[string]bool{}
 		for _, id := range t.Pre.CtxIDs {
 			pc, qc := t.Pre.Ctxs[id], t.Post.Ctxs[id]
